@@ -609,6 +609,9 @@ impl FunctionCompiler<'_> {
             } => {
                 let continue_block = self.continues[&label];
 
+                // the blocks inside the loop are being left, so their defers have to run
+                self.run_defers_to_label(label);
+
                 self.builder.ins().jump(continue_block, &[]);
             }
             hir::Stmt::Continue { label: None, .. } => unreachable!(),
@@ -631,6 +634,20 @@ impl FunctionCompiler<'_> {
     fn break_to_label(&mut self, value: Option<Value>, label: hir::ScopeId) {
         let exit_block = self.exits[&label];
 
+        self.run_defers_to_label(label);
+
+        if let Some(value) = value {
+            self.builder
+                .ins()
+                .jump(exit_block, &[BlockArg::Value(value)]);
+        } else {
+            self.builder.ins().jump(exit_block, &[]);
+        };
+    }
+
+    /// Compiles the defers of every block between here and the block (or loop) `label`,
+    /// innermost block first. The defers of `label` itself are not compiled here.
+    fn run_defers_to_label(&mut self, label: hir::ScopeId) {
         // run all the defers from here, backwards to the one we are breaking out of
 
         let mut used_frames = Vec::new();
@@ -657,14 +674,6 @@ impl FunctionCompiler<'_> {
         }
 
         self.defer_stack.extend(used_frames.into_iter().rev());
-
-        if let Some(value) = value {
-            self.builder
-                .ins()
-                .jump(exit_block, &[BlockArg::Value(value)]);
-        } else {
-            self.builder.ins().jump(exit_block, &[]);
-        };
     }
 
     fn store_default_in_memory(&mut self, expected_ty: Intern<Ty>, memory: MemoryLoc) {
@@ -1592,7 +1601,8 @@ impl FunctionCompiler<'_> {
                 if let Some(ty) = ty.into_real_type() {
                     self.builder.append_block_param(exit_block, ty);
                 }
-                if let Some(scope_id) = self.world_bodies[self.loc.file()].block_to_scope_id(expr) {
+                let scope_id = self.world_bodies[self.loc.file()].block_to_scope_id(expr);
+                if let Some(scope_id) = scope_id {
                     self.continues.insert(scope_id, header_block);
                     self.exits.insert(scope_id, exit_block);
                 }
@@ -1614,7 +1624,16 @@ impl FunctionCompiler<'_> {
                 self.builder.switch_to_block(body_block);
                 self.builder.seal_block(body_block);
 
+                // a loop has no defers of its own, but `break` and `continue` unwind the frames of
+                // the blocks inside the loop down to this one (and no further)
+                self.defer_stack.push(DeferFrame {
+                    id: scope_id,
+                    defers: Vec::new(),
+                });
+
                 self.compile_expr(body);
+
+                self.defer_stack.pop();
 
                 self.builder.ins().jump(header_block, &[]);
 
